@@ -77,11 +77,14 @@ def source_list(root, fixed, x86):
     files = []
     for f in celt.get("CELT_SOURCES", []) + silk.get("SILK_SOURCES", []) + opus.get("OPUS_SOURCES", []):
         files.append((f, []))
+    # analysis.c / mlp*.c belong to every build that keeps the float API (ours do)
+    for f in opus.get("OPUS_SOURCES_FLOAT", []):
+        files.append((f, []))
     if fixed:
         for f in silk.get("SILK_SOURCES_FIXED", []):
             files.append((f, []))
     else:
-        for f in silk.get("SILK_SOURCES_FLOAT", []) + opus.get("OPUS_SOURCES_FLOAT", []):
+        for f in silk.get("SILK_SOURCES_FLOAT", []):
             files.append((f, []))
     if x86:
         for f in celt.get("CELT_SOURCES_X86_RTCD", []) + silk.get("SILK_SOURCES_X86_RTCD", []):
